@@ -265,9 +265,7 @@ def shapeWF (cliShape : List String) (mainShape : String) (mwSteps : List String
   cliShape == ["debug-inspect", "glom-or-print-class-colon-message-return-1", "indent-0-none",
                "scalar-str-else-dumps-sorted", "return-none"] &&
   mainShape == "cmd = get_command() ; return cmd.run(argv) or 0" &&
-  mwSteps == ["spec_text, target_text = (None, None)", "if len(posargs_) == 2:", "if spec_text and spec_file:",
-              "if not spec_text:", "if target_text and target_file:",
-              "target = mw_handle_target(target_text, target_format)", "return next_(spec=spec, target=target)"] &&
+  mwSteps == ["init", "posargs", "spec-source", "spec-parse", "target-source", "handle-target", "next"] &&
   emptyFirst &&
   middlewares == ["mw_get_target", "handler:glom_cli"]
 
